@@ -49,7 +49,7 @@ impl RenderEf for Ext {
     }
 }
 
-fn render_tt(t: &BasicTokenType) -> String {
+pub fn render_tt(t: &BasicTokenType) -> String {
     match t {
         BasicTokenType::Bearer => "Bearer".into(),
         BasicTokenType::Mac => "Mac".into(),
@@ -136,7 +136,7 @@ pub fn render_error<T: ErrorResponseType + AsRef<str> + std::fmt::Display + 'sta
     )
 }
 
-fn render_result<V, T, F>(r: Result<V, RequestTokenError<FakeError, StandardErrorResponse<T>>>, f: F) -> String
+pub fn render_result<V, T, F>(r: Result<V, RequestTokenError<FakeError, StandardErrorResponse<T>>>, f: F) -> String
 where
     T: ErrorResponseType + AsRef<str> + std::fmt::Display + 'static,
     F: Fn(&V) -> String,
@@ -150,7 +150,7 @@ where
     }
 }
 
-fn okv<V: Serialize>(r: String, v: &V) -> String {
+pub fn okv<V: Serialize>(r: String, v: &V) -> String {
     format!("ok {} {}", r, tok_bytes(serde_json::to_string(v).unwrap().as_bytes()))
 }
 
